@@ -15,7 +15,9 @@ sed -i "s#=> /repo#=> $REPO#" "$SCR/harness/go.mod"
 cp "$REPO/go.sum" "$SCR/harness/go.sum"
 (cd "$SCR/harness" && VERIF_REPO=$REPO go build -tags verif -o "$SCR/vh" .)
 VERIF_REPO=$REPO "$SCR/vh" dump "$SCR"
-python3 tools/gen_tables.py "$SCR/tables.json" coq/gen
+(cd tools/scan && go build -o "$SCR/vscan" .)
+"$SCR/vscan" "$REPO" > "$SCR/scan.json"
+python3 tools/gen_tables.py "$SCR/tables.json" coq/gen "$SCR/scan.json"
 (cd coq && coq_makefile -f _CoqProject -o Makefile >/dev/null && timeout 3000 make -j16)
 (cd ocaml && coqc -Q ../coq WI -w -notation-overridden,-ambiguous-paths ../coq/Extract.v && ocamlfind ocamlopt -O3 -w -a model.mli model.ml driver.ml -o modelrun)
 echo "setup ok"
